@@ -12,6 +12,8 @@
 
 namespace sim
 {
+void simClockEnable(bool on);
+void simClockSet(uint64_t ns);
 
 static std::vector<std::pair<uint64_t, int>> g_lastSwitchLog;
 const std::vector<std::pair<uint64_t, int>>& lastSwitchLog()
@@ -84,6 +86,7 @@ RunResult execThreads(const Plan& plan)
         // ... and interrupted between two deliveries: "clonedeliv" of the frames in flight are delivered first, so that
         // the copies are made in the middle of whatever those frames belong to (a reassembly, say)
         const size_t cloneDeliv = static_cast<size_t>(std::max<int64_t>(0, plan.cfgGet("clonedeliv", 0)));
+        simClockEnable(true);
         World proto(subs[0]);
         proto.runOps(0, clonePrefix);
         proto.deliverDue(cloneDeliv, clonePrefix);
@@ -104,6 +107,7 @@ RunResult execThreads(const Plan& plan)
                 [&res, &worlds, t, clonePrefix]
                 {
                     World& w = *worlds[static_cast<size_t>(t)];
+                    simClockEnable(true);
                     w.runOps(clonePrefix, static_cast<size_t>(-1));
                     w.finishRun();
                     res[static_cast<size_t>(t)] = std::move(w.res);
